@@ -54,6 +54,13 @@ EDITS = [
        '        files = sorted(f for f in files if not f[0] == ".")\n        dirs[:] = sorted(d for d in dirs if not d[0] == ".")\n        for file in files:\n            rel_path = Path(')]),
     ("empty_profile_early_return", "codelimit/common/report/Report.py", ["C19"],
      [("        total = sum(profile)\n        unmaintainable = ceil(", "        total = sum(profile)\n        if total == 0:\n            return 100, 0, 0, 0\n        unmaintainable = ceil(")]),
+    ("negative_sort_key", "codelimit/common/report/Report.py", ["C18", "C02", "C04"],
+     [("        result = sorted(result, key=lambda unit: unit.measurement.value, reverse=True)", "        result = sorted(result, key=lambda unit: -unit.measurement.value)")]),
+    ("blocks_inline", "codelimit/common/scope/scope_utils.py", ["C01", "C05"],
+     [("    token_ranges = [TokenRange(bt[0], bt[1] + 1) for bt in balanced_tokens]\n    return sort_token_ranges(token_ranges, tokens)",
+       "    return sort_token_ranges([TokenRange(first, last + 1) for first, last in balanced_tokens], tokens)")]),
+    ("aggregate_rename", "codelimit/common/Codebase.py", ["C07"],
+     [("        def aggregate_folder(path):\n            folder = self.tree[path]", "        def aggregate_folder(path):\n            # profile of a folder = its files plus its sub-folders\n            folder = self.tree[path]")]),
 ]
 out_root = "/verif/seeded/benign"
 for name, rel, checks, repl in EDITS:
